@@ -43,7 +43,10 @@ CHECKS = {
          "endParaRPr). The driver creates the object, applies the operations through the public API and after EVERY step logs the verdict "
          "of the XSD monitor (lxml XMLSchema over the transitional schemas after markup-compatibility preprocessing) for every slide, chart "
          "and notes part, and for all parts after save/re-open; TLC evaluates AllPartsValid / RejectedKeepsValidity / RejectedAsDocumented "
-         "on the logged error signatures with baseline subtraction.",
+         "on the logged error signatures with baseline subtraction. Two more hosts feed the same verdict module: Deck.tla histories over the "
+         "full public-API alphabet (saved package judged), and every assignment of C09's property catalogue (MC_Props: every in-domain, None, "
+         "out-of-domain and wrong-type value class of ~330 properties, alone and after an accepted assignment) with the object's part "
+         "validated before and after - accepted assignments must keep it valid, refused ones must leave it as valid as it was.",
     note="Validity is judged by the monitor, not by TLC (no TLA+ model of ISO/IEC 29500). Catalogue is hand-written; unused operations fail the run as vacuous; unexpected exceptions are listed in the evidence. Ordering/cardinality is additionally decided exhaustively by C10.",
     technique="TLA+ catalogue interpreter as program generator (TLC) + XSD monitor on every step + TLC clause evaluation on logged verdicts"),
  "C04": dict(
@@ -115,8 +118,11 @@ CHECKS = {
     text="ChildOrder.tla: Impl layer transcribes xmlchemy (first_child_found_in, insert_element_before, remove_all, get-or-add, change-to); "
          "property layer = Ordered (schema slot ranks around the new child, judged on schema-permitted parents), AtMostOne, "
          "GetOrAddIdempotent, RemoveRemovesAll, ChangeToLeavesExactlyOne. All constants re-extracted at every run: 196 tags / 156 classes / "
-         "282 declarations from the registry and generated-method closures; XSD content models flattened to slots with conservative rules. "
+         "282 declarations from the registry and generated-method closures (with a behavioural second source - generated method names, "
+         "_new_x() tags, measured successor sets - for classes where closure introspection fails, so that a refactoring of xmlchemy's "
+         "internals does not break the check); XSD content models flattened to slots with conservative rules. "
          "MC_ChildOrder's Init is the quantifier (class x XSD type x child x sibling-context families, two-kind orderings, two steps deep; "
+         "duplicates of a ZeroOrOne child and every ordered pair of members of a choice group for the remove / change-to clauses; "
          "thorough: every permitted subset for <= 12 slots). TLC prints every counterexample and transition; each transition is executed "
          "on a real element with the real generated method and TLC validates the observed sequence.",
     note="Trusted: TLC, the XSDs in /repo/spec, lxml iteration. The slot model only under-constrains. Declarations nothing in src/pptx names are reported as latent NOTEs. Hand-written append/addprevious sites are listed, not judged here (C03).",
@@ -136,8 +142,10 @@ CHECKS = {
     text="ReadOnly.tla states the property on package observations (roles, canonical XML modulo empty attribute-less elements; slide parts "
          "by presentation position): same parts, unchanged meaning, successive saves identical. MC_ReadOnly enumerates every order and "
          "repetition of the accessor groups with saves in between; a seeded sample plus an all-groups order is replayed on every corpus "
-         "deck: every public property/len/iteration/index of every object reachable by introspection is read, except accessors whose own "
-         "docstring says that reading creates or is destructive; TLC compares every save with the package saved straight after opening. "
+         "deck and on two generated decks (one slide per layout; every shape kind plus a notes page): every public property/len/iteration/"
+         "index of every object reachable by introspection is read - predicates always; a creating accessor only when its own predicate "
+         "says the content exists (notes_slide if has_notes_slide) - except accessors whose own docstring says that reading creates or is "
+         "destructive; TLC compares every save with the package saved straight after opening. "
          "A rejected traversal is bisected per accessor so the signature names the getter responsible.",
     note="Trusted: TLC, zipfile/lxml comparison, the docstring pattern deciding 'documented as creating' (list in the evidence). Known finding: chart getters creating c:dLbls / c:dPt on read.",
     technique="TLA+ spec of the invariant + TLC-enumerated accessor orders replayed by an introspective reader; TLC validates package observations"),
